@@ -265,7 +265,7 @@ def run(ctx):
                     tr.do(("mut", cop, spec))
                     modes_seen.add((tr.in_ctx, tr.in_write, tr.armed))
                     if tr.obs[-1]["changed"]:
-                        pres = {e[1] for e in C.absfile(tr.obs[-1]["after"])["live"]}
+                        pres = {e[1] for e in (C.absfile(tr.obs[-1]["after"]) or {"live": []})["live"]}
             tr.close()
             tr.nmodes = len(modes_seen)
             traces.append((tr, f"interleaving#{k}", ("interleaving",)))
